@@ -436,6 +436,11 @@ func RenderWithAST(mjmlContent string, opts ...RenderOption) (*RenderResult, err
 	renderDuration := time.Since(renderStart).Milliseconds()
 
 	htmlOutput := html.String()
+	if htmlOutput == "" {
+		// A root element that renders nothing (a head-only element such as <mj-title> or
+		// <mj-attributes> without the enclosing <mjml>) is an error, not an empty success.
+		return nil, fmt.Errorf("mjml: root element <%s> produces no output; expected <mjml>", ast.GetTagName())
+	}
 	totalDuration := time.Since(startTime).Milliseconds()
 
 	debug.DebugLogWithData("mjml", "render-complete", "MJML rendering completed", map[string]interface{}{
@@ -502,6 +507,9 @@ func RenderFromAST(ast *MJMLNode, opts ...RenderOption) (string, error) {
 	html, err := RenderComponentString(component)
 	if err != nil {
 		return "", err
+	}
+	if html == "" {
+		return "", fmt.Errorf("mjml: root element <%s> produces no output; expected <mjml>", ast.GetTagName())
 	}
 	if validationErr != nil {
 		return html, *validationErr
